@@ -261,13 +261,23 @@ func checkField(path, term, kind string, v interface{}, doc map[string]interface
 		if !ok {
 			return fmt.Sprintf("%s.%sMap is %T", path, term, x)
 		}
-		if len(mp) != len(l) {
-			return fmt.Sprintf("%s.%sMap has %d entries for %d language values", path, term, len(mp), len(l))
-		}
+		// a language can appear once in a map: the first value of a repeated language reference wins
+		first := map[string]string{}
+		var order []string
 		for _, e := range l {
 			p := asList(e)
-			if !sameText(p[1].(string), mp[strings.ToValidUTF8(p[0].(string), "\ufffd")]) {
-				return fmt.Sprintf("%s.%sMap[%q]: text %q written as %v", path, term, p[0], p[1], mp[p[0].(string)])
+			tag := strings.ToValidUTF8(p[0].(string), "\ufffd")
+			if _, ok := first[tag]; !ok {
+				first[tag] = p[1].(string)
+				order = append(order, tag)
+			}
+		}
+		if len(mp) != len(first) {
+			return fmt.Sprintf("%s.%sMap has %d entries for %d languages", path, term, len(mp), len(first))
+		}
+		for _, tag := range order {
+			if !sameText(first[tag], mp[tag]) {
+				return fmt.Sprintf("%s.%sMap[%q]: text %q written as %v", path, term, tag, first[tag], mp[tag])
 			}
 		}
 		return ""
@@ -495,7 +505,7 @@ func c02SiteLiteral(out []byte, s string) []int {
 
 func init() {
 	campaigns["C02"] = func(c *Ctx) {
-		c.Rule = "(1) string sites: each of 28 hostile byte strings (quotes, backslashes, injection attempts, control characters, U+2028, JSON fragments, escape look-alikes, invalid UTF-8) alone, prefixed by an absolute URL and concatenated in pairs, placed in each of 17 string-bearing positions (id, type, media type, IRI as item, IRI list member, units, hrefLang, former type, key material/owner/id, text, language-map value and tag, source media type, link href, url): the literal the library writes must be byte-identical to the model's writeText (the proven escaper), and the whole output passes the oracle; (2) generated values over the whole vocabulary (C01's covering set and random trees) with hostile strings substituted into string positions with probability 0.3: oracle only. Oracle: the output is empty or parses with encoding/json, no object repeats a member name (token walk), every set property is found under its declared term (struct tag) with the prescribed kind (bool/number unquoted, RFC 3339 instant equal to the value's, xsd:duration equal to the value's), every string decodes to exactly the bytes held (valid UTF-8) and no member stands for no property (totalItems: 0 of collections aside)."
+		c.Rule = "(1) string sites: each of 28 hostile byte strings (quotes, backslashes, injection attempts, control characters, U+2028, JSON fragments, escape look-alikes, invalid UTF-8) alone, prefixed by an absolute URL and concatenated in pairs, placed in each of 17 string-bearing positions (id, type, media type, IRI as item, IRI list member, units, hrefLang, former type, key material/owner/id, text, language-map value and tag, source media type, link href, url): the literal the library writes must be byte-identical to the model's writeText (the proven escaper), and the whole output passes the oracle; (2) generated values over the whole vocabulary (C01's covering set and random trees) with hostile strings substituted into string positions with probability 0.3: oracle only. Oracle: the output is empty or parses with encoding/json, no object repeats a member name (token walk), every set property is found under its declared term (struct tag) with the prescribed kind (bool/number unquoted, RFC 3339 instant equal to the value's, xsd:duration equal to the value's), every string decodes to exactly the bytes held (valid UTF-8) and no member stands for no property (totalItems: 0 of collections aside). Also: language values repeating a language reference (one member per language, first wins) and NaN/+-Inf coordinates (no invalid token)."
 		for _, site := range c02Sites {
 			for i, h := range hostile {
 				for v := 0; v < 3; v++ {
@@ -526,6 +536,36 @@ func init() {
 				}
 			}
 		}
+		// repeated language references in one value, and numbers JSON cannot carry
+		for _, l := range [][]interface{}{
+			{[]interface{}{"en", "one"}, []interface{}{"en", "two"}},
+			{[]interface{}{"en", "one"}, []interface{}{"fr", "deux"}, []interface{}{"en", "three"}},
+			{[]interface{}{"-", "one"}, []interface{}{"-", "two"}},
+			{[]interface{}{"fr", "a"}, []interface{}{"fr", "b"}, []interface{}{"fr", "c"}},
+		} {
+			for _, fld := range []string{"Name", "Summary", "Content"} {
+				tr := T{"t": "Object", "ptr": true, "f": T{"Type": T{"s": "Note"}, fld: T{"nlv": l}}}
+				c.Count(tr, true)
+				c.Tag("repeated-language")
+				if _, viol := c02Check(tr); viol != "" {
+					c.Fail("C02/duplicate", viol, map[string]interface{}{"v": tr})
+				}
+			}
+		}
+		for _, f := range []float64{math.NaN(), math.Inf(1), math.Inf(-1)} {
+			for k := 0; k < 4; k++ {
+				p := &ap.Place{Type: ap.PlaceType, ID: "https://example.com/place"}
+				*[]*float64{&p.Latitude, &p.Longitude, &p.Altitude, &p.Accuracy}[k] = f
+				var out []byte
+				var err error
+				pan, msg := guard(func() { out, err = ap.MarshalJSON(p) })
+				c.Count(map[string]interface{}{"nonfinite": fmt.Sprint(f), "field": k}, true)
+				c.Tag("non-finite-number")
+				if pan || (err == nil && len(out) > 0 && !json.Valid(out)) {
+					c.Fail("C02/invalid", fmt.Sprintf("a Place holding %v is written as %s %s", f, out, msg), map[string]interface{}{"nonfinite": fmt.Sprint(f), "field": k})
+				}
+			}
+		}
 		cfg := c01Cfg(c.N(2, 3))
 		emit := func(c *Ctx, x interface{}, tag string) {
 			tr := c02Substitute(c.R, x).(T)
@@ -553,6 +593,16 @@ func init() {
 		var in map[string]interface{}
 		if err := json.Unmarshal(input, &in); err != nil {
 			return "bad replay input"
+		}
+		if nf, ok := in["nonfinite"].(string); ok {
+			f := map[string]float64{"NaN": math.NaN(), "+Inf": math.Inf(1), "-Inf": math.Inf(-1)}[nf]
+			p := &ap.Place{Type: ap.PlaceType, ID: "https://example.com/place"}
+			*[]*float64{&p.Latitude, &p.Longitude, &p.Altitude, &p.Accuracy}[int(num(in["field"]))] = f
+			out, err := ap.MarshalJSON(p)
+			if err == nil && len(out) > 0 && !json.Valid(out) {
+				return "not valid JSON: " + string(out)
+			}
+			return ""
 		}
 		_, viol := c02Check(parseTree(in["v"]).(T))
 		return viol
